@@ -403,7 +403,13 @@ pub fn seam(kind: SeamKind) {
         }
         Some((SeamAction::Stall(ms), _)) => {
             fired("stall");
-            std::thread::sleep(std::time::Duration::from_millis(ms as u64));
+            // simulated time: the caller's delay is an advance of the clock; without the clock
+            // seam (shim not loaded) it is a real sleep
+            if crate::clock::available() {
+                crate::clock::advance_ms(ms as u64);
+            } else {
+                std::thread::sleep(std::time::Duration::from_millis(ms as u64));
+            }
         }
         Some((SeamAction::Reenter(i), depth)) => {
             if depth == 0 {
